@@ -44,8 +44,9 @@ Module: harness.agents.c13_history.run(seed, n, driver, thorough) -> dict ; repl
 import os, sys, json, random, signal, argparse, warnings
 
 os.environ.setdefault("JAQALPAQ_RUN_EMULATOR", "1")
-if "/verif" not in sys.path:
-    sys.path.insert(0, "/verif")
+_ROOT = __import__("os").path.dirname(__import__("os").path.dirname(__import__("os").path.dirname(__import__("os").path.abspath(__file__))))
+if _ROOT not in sys.path:
+    sys.path.insert(0, _ROOT)
 
 DEFAULT_DRIVER = "/verif/lean/.lake/build/bin/jaqal-model"
 PAR_MSG = "Parallel branches of block acting on the same qubit."
@@ -968,7 +969,7 @@ def _isolated_ok(case):
             "print('ISOLATED', json.dumps(m.replay(json.load(sys.stdin), prelude=False)['oracle_ok']))")
     try:
         p = subprocess.run([sys.executable, "-W", "ignore", "-c", code], input=json.dumps(case), capture_output=True, text=True,
-                           timeout=300, env=env, cwd="/verif")
+                           timeout=300, env=env, cwd=__import__("os").path.dirname(__import__("os").path.dirname(__import__("os").path.dirname(__import__("os").path.abspath(__file__)))))
         for line in p.stdout.split("\n"):
             if line.startswith("ISOLATED "):
                 return json.loads(line[9:])
